@@ -1,8 +1,15 @@
 """C15: compiled selectors are immutable values; the pattern cache is transparent."""
+import base64
+import contextlib
 import copy
+import io
 import json
+import os
 import pickle
 import random
+import subprocess
+import sys
+import tempfile
 import warnings
 
 import soupsieve as sv
@@ -27,7 +34,21 @@ RULE = ('(a) every object reachable from compiled selectors of the whole grammar
         'compile / purge with more distinct patterns than the bound, failing patterns, repeated keys: after every call the '
         'returned object equals a fresh parse and cache_info() (hits, misses, currsize) equals the Lean LRU model\'s; currsize '
         'never exceeds the bound; purge empties; (d) compile(compiled) is the same object, and rejects flags / namespaces / '
-        'custom with ValueError. Non-trivial (c) = histories in which an eviction happens.')
+        'custom with ValueError. Non-trivial (c) = histories in which an eviction happens. (e) ACROSS PROCESSES: a batch of '
+        'compiled selectors (generated patterns, namespace / custom maps incl. several entries, both orders, str-subclass '
+        'keys and values, flags) is pickled (every protocol) in an interpreter started with one PYTHONHASHSEED and unpickled '
+        'in interpreters started with other PYTHONHASHSEED values (hash randomisation off included) and in the checking '
+        'process: the loaded object and every reachable part (SelectorList, Selector, ..., Namespaces, CustomSelectors) is '
+        '== to, and has the hash of, the corresponding part of a fresh compile of the same arguments in the loading process, '
+        'finds it as a dict key, and selects the same elements of the same documents as in every other process. (b) and '
+        '(b4) also take keys / values that are instances of a str subclass (== and hash of the plain string): maps and '
+        'compiled selectors that are == must have equal hashes.')
+
+
+class S(str):
+    """A str subclass: compares equal to, and hashes like, the plain string (what e.g. bs4 hands out as attribute
+    values and what str enums / markup-safe strings are)."""
+    __slots__ = ()
 
 
 def walk(obj, seen):
@@ -47,6 +68,225 @@ def walk(obj, seen):
 
 def snapshot(o):
     return pickle.dumps(o)
+
+
+def pair_walk(a, b, path, out):
+    """Corresponding immutable parts of two structures expected to be equal: (path, part_of_a, part_of_b)."""
+    if isinstance(a, (ct.Immutable, ct.ImmutableDict)) or isinstance(b, (ct.Immutable, ct.ImmutableDict)):
+        out.append((path, a, b))
+        if isinstance(a, ct.Immutable) and type(a) is type(b):
+            for s in a.__slots__:
+                if s != '_hash':
+                    pair_walk(getattr(a, s), getattr(b, s), f'{path}.{s}', out)
+    elif isinstance(a, tuple) and isinstance(b, tuple):
+        if len(a) != len(b):
+            out.append((path, a, b))
+        else:
+            for i, (x, y) in enumerate(zip(a, b)):
+                pair_walk(x, y, f'{path}[{i}]', out)
+
+
+def value_findings(got, fresh, how):
+    """`got` (an unpickled / copied compiled selector) against a fresh compile of the same arguments IN THIS PROCESS.
+    Returns (findings, number of parts compared)."""
+    out = []
+    parts = []
+    pair_walk(got, fresh, 'c', parts)
+    for path, x, y in parts:
+        cls = type(y).__name__
+        try:
+            if type(x) is not type(y):
+                out.append(f'{how}: part {path} is a {type(x).__name__}, in a fresh compile it is a {cls}')
+            elif not (x == y) or x != y or not (y == x):
+                out.append(f'{how}: part {path} ({cls}) is not == to the same part of a fresh compile of the same arguments')
+            elif hash(x) != hash(y):
+                out.append(f'{how}: part {path} ({cls}) is == to the same part of a fresh compile of the same arguments '
+                           'but has another hash')
+        except Exception as e:
+            out.append(f'{how}: comparing / hashing part {path} ({cls}) raised {e!r}')
+    if len(out) > 1:            # innermost part last: that is where the discrepancy originates
+        out = [out[-1] + ' (and ' + str(len(out) - 1) + ' enclosing / other parts, first: ' + out[0].split(': ', 1)[1][:60] + '...)']
+    if not out:
+        try:
+            if {fresh: 1}.get(got) != 1 or got not in {fresh} or fresh not in {got}:
+                out.append(f'{how}: the object is not found in a dict / set holding a fresh compile of the same arguments')
+        except Exception as e:
+            out.append(f'{how}: dict lookup raised {e!r}')
+    return out, len(parts)
+
+
+def compile_key(k):
+    """k = (pattern, namespaces, custom, flags); the DEBUG flag prints."""
+    with contextlib.redirect_stdout(io.StringIO()):
+        return sv.compile(k[0], k[1], k[3], custom=k[2])
+
+
+def selected(c, doc):
+    idx = {id(e): i for i, e in enumerate(gen.elements(doc))}
+    with contextlib.redirect_stdout(io.StringIO()):
+        return [idx.get(id(e), -1) for e in c.select(doc)]
+
+
+def xproc_step(req):
+    """One process of sub-check (e).  req: keys, doc specs, protocols per key, blobs to load ({origin: [[(proto, bytes)]]}).
+    Compiles every key, reports what it selects, pickles it, and checks every given blob against the own compile."""
+    docs = [gen.build_doc(kind, top) for kind, top in req['docs']]
+    res = {'hashseed': req.get('name') or os.environ.get('PYTHONHASHSEED'), 'blobs': [], 'selected': [], 'findings': [], 'loads': 0, 'parts': 0}
+    for i, k in enumerate(req['keys']):
+        sv.purge()
+        try:
+            fresh = compile_key(k)
+            res['selected'].append(selected(fresh, docs[req['doc_of'][i]]))
+            res['blobs'].append([(pr, pickle.dumps(fresh, protocol=pr)) for pr in req['protocols'][i]])
+        except Exception as e:
+            res['selected'].append(None)
+            res['blobs'].append([])
+            res['findings'].append((i, None, f'compile / select / pickle raised {e!r} in this process only'))
+            continue
+        for origin, blobs in req.get('load', {}).items():
+            for pr, blob in blobs[i]:
+                how = f'pickled (protocol {pr}) under PYTHONHASHSEED={origin}, unpickled under PYTHONHASHSEED={res["hashseed"]}'
+                res['loads'] += 1
+                try:
+                    got = pickle.loads(blob)
+                    f, n = value_findings(got, fresh, how)
+                    res['parts'] += n
+                    if not f and selected(got, docs[req['doc_of'][i]]) != res['selected'][i]:
+                        f = [f'{how}: the unpickled selector selects other elements than a fresh compile']
+                    if not f:
+                        again = pickle.loads(pickle.dumps(got, protocol=pr))
+                        f = value_findings(again, fresh, how + ', pickled and unpickled once more')[0]
+                except Exception as e:
+                    f = [f'{how}: raised {e!r}']
+                res['findings'].extend((i, origin, x) for x in f[:1])
+    sv.purge()
+    return res
+
+
+def xproc_spawn(req, hashseed):
+    """Start `xproc_step(req)` in a new interpreter with the given PYTHONHASHSEED; returns a function that waits for the result."""
+    d = tempfile.mkdtemp(prefix='c15x')
+    rq, rs = os.path.join(d, 'req'), os.path.join(d, 'res')
+    with open(rq, 'wb') as f:
+        pickle.dump(req, f)
+    here = os.path.dirname(os.path.dirname(os.path.abspath(__file__)))
+    env = dict(os.environ)
+    env['PYTHONHASHSEED'] = str(hashseed)
+    env['PYTHONPATH'] = os.pathsep.join([framework.REPO, here, os.path.join(here, '..', 'gen')] +
+                                        ([env['PYTHONPATH']] if env.get('PYTHONPATH') else []))
+    code = ('import pickle, sys\nfrom props import c15\n'
+            'res = c15.xproc_step(pickle.load(open(sys.argv[1], "rb")))\n'
+            'pickle.dump(res, open(sys.argv[2], "wb"))\n')
+    p = subprocess.Popen([sys.executable, '-c', code, rq, rs], env=env, stdout=subprocess.PIPE, stderr=subprocess.STDOUT)
+
+    def wait():
+        out = p.communicate(timeout=600)[0].decode(errors='replace')
+        try:
+            if p.returncode != 0:
+                raise RuntimeError(f'cross-process worker (PYTHONHASHSEED={hashseed}) failed: {out[-2000:]}')
+            with open(rs, 'rb') as f:
+                return pickle.load(f)
+        finally:
+            for x in (rq, rs):
+                if os.path.exists(x):
+                    os.unlink(x)
+            os.rmdir(d)
+    return wait
+
+
+XML_TOP = [('e', 'r', None, None, [], [('e', 'circle', None, gen.SVG, [], []), ('e', 'circle', None, 'urn:other', [], []),
+                                       ('e', 'p', None, 'urn:x', [], []),
+                                       ('e', 'div', None, None, [], [('e', 'p', None, None, [], []), ('e', 'i', None, None, [], [])])])]
+
+
+def xproc_keys(rng, pats, n):
+    """Keys (pattern, namespaces, custom, flags) that compile: generated patterns of the whole grammar and small ones,
+    maps with one / several entries in both orders, str-subclass keys and values, every flag spelling."""
+    ns_pool = [{'svg': gen.SVG}, {'svg': gen.SVG, 'x': 'urn:x'}, {'x': 'urn:x', 'svg': gen.SVG}, {'svg': gen.SVG, '': 'urn:x'},
+               {S('svg'): gen.SVG}, {'svg': S(gen.SVG), S('x'): S('urn:x')}, {'svg': gen.SVG, 'a': 'u1', 'b': 'u2', 'c': 'u3'}]
+    cu_pool = [{':--c1': 'div > *'}, {':--c1': 'div > *', ':--c2': 'p, i'}, {':--c2': 'p, i', ':--c1': 'div > *'},
+               {S(':--c1'): 'div > *'}, {':--c1': S('div > *'), ':--c2': ':--c1 + i'}, {':--C1': 'p', ':--\\63 2': 'i'}]
+    small = ['p', 'svg|circle', '*|circle:not(svg|*)', ':--c1', 'x|p, :--c2', 'div > :--c1', '[a|href]', '|p', '*|*', S('p'), S('svg|circle, :--c1')]
+    keys = []
+    tries = 0
+    while len(keys) < n and tries < 20 * n:
+        tries += 1
+        pat = rng.choice(pats) if pats and rng.random() < 0.6 else rng.choice(small)
+        k = (pat, rng.choice(ns_pool + [None]), rng.choice(cu_pool + [None]), rng.choice([0, 0, 1, False, True]))
+        try:
+            sv.purge()
+            compile_key(k)
+            keys.append(k)
+        except Exception:
+            pass
+    sv.purge()
+    return keys
+
+
+def describe_key(k):
+    def m(d):
+        return None if d is None else [[type(a).__name__, str(a), type(b).__name__, str(b)] for a, b in d.items()]
+    return {'pattern': str(k[0]), 'pattern_type': type(k[0]).__name__, 'namespaces': m(k[1]), 'custom': m(k[2]), 'flags': repr(k[3])}
+
+
+def undescribe_key(d):
+    def t(name, v):
+        return S(v) if name == 'S' else v
+
+    def m(x):
+        return None if x is None else {t(a, b): t(c, e) for a, b, c, e in x}
+    return (t(d['pattern_type'], d['pattern']), m(d['namespaces']), m(d['custom']), {'0': 0, '1': 1, 'False': False, 'True': True}[d['flags']])
+
+
+def cross_process(chk, rng, pats, quick, only_keys=None):
+    """Sub-check (e).  Returns (violations, counts)."""
+    keys = only_keys if only_keys is not None else xproc_keys(rng, pats, 70 if quick else 600)
+    docs = [('xml', XML_TOP)] + [gen.gen_state_doc(rng) for _ in range(2)]
+    top = pickle.HIGHEST_PROTOCOL
+    protocols = [list(range(top + 1)) if not quick else sorted({i % (top + 1), top}) for i in range(len(keys))]
+    built = [gen.build_doc(kind, top_) for kind, top_ in docs]
+    doc_of = []
+    for i, k in enumerate(keys):                # the first document in which the key selects something
+        c = compile_key(k)
+        doc_of.append(next((j for j, d in enumerate(built) if selected(c, d)), i % len(docs)))
+    base = {'keys': keys, 'docs': docs, 'protocols': protocols, 'doc_of': doc_of}
+    seeds = []
+    while len(seeds) < (3 if quick else 6):
+        x = rng.randrange(1, 2 ** 32)
+        if x not in seeds and str(x) != os.environ.get('PYTHONHASHSEED'):
+            seeds.append(x)
+    mine = (os.environ.get('PYTHONHASHSEED') or 'random') + ' (checking process)'
+    wait_first = xproc_spawn(base, seeds[0])                                # the pickling interpreter ...
+    here = xproc_step(dict(base, name=mine))                                # ... and this process: its own pickles
+    first = wait_first()
+    load = {str(seeds[0]): first['blobs'], mine: here['blobs']}
+    waits = [(s, xproc_spawn(dict(base, load=load), s)) for s in seeds[1:] + [0]]
+    results = [(str(seeds[0]), first), (mine, here)] + [(str(s), w()) for s, w in waits]
+    # back in the checking process: what the first and the second interpreter pickled
+    results.append((mine, xproc_step(dict(base, name=mine, load={str(seeds[0]): first['blobs'], results[2][0]: results[2][1]['blobs']}))))
+    bad = []
+    flagged = set()
+    for name, res in results:
+        for i, origin, what in res['findings']:
+            if i not in flagged:
+                flagged.add(i)
+                bad.append({'what': what, 'xproc': True, 'key': describe_key(keys[i]), 'pickled_under_hashseed': origin,
+                            'checked_under_hashseed': name,
+                            'sequence': 'PYTHONHASHSEED=A python: blob = pickle.dumps(soupsieve.compile(*key)); PYTHONHASHSEED=B python: '
+                                        'got = pickle.loads(blob); fresh = soupsieve.compile(*key); got == fresh and hash(got) == hash(fresh), '
+                                        'also for got.namespaces, got.custom, got.selectors, ...'})
+    for i in range(len(keys)):
+        sels = {name: res['selected'][i] for name, res in results if res['selected'][i] is not None}
+        if len({json.dumps(v) for v in sels.values()}) > 1 and i not in flagged:
+            flagged.add(i)
+            bad.append({'what': 'the same arguments select other elements of the same document in interpreters started with other '
+                                'PYTHONHASHSEED values', 'xproc': True, 'key': describe_key(keys[i]), 'selected_by_hashseed': sels})
+    counts = {'cross_process_keys': len(keys), 'cross_process_interpreters': len(results) - 1,
+              'cross_process_hashseeds': [name for name, _ in results[:-1]],
+              'cross_process_unpickles': sum(r['loads'] for _, r in results), 'cross_process_parts_compared': sum(r['parts'] for _, r in results),
+              'cross_process_keys_with_str_subclass': sum(1 for k in keys if any(type(x) is S for d in (k[1], k[2]) if d for kv in d.items() for x in kv)),
+              'cross_process_keys_selecting_something': sum(1 for i in range(len(keys)) if here['selected'][i])}
+    return bad, counts
 
 
 def _valid(m):
@@ -145,13 +385,15 @@ def run(chk):
         sv.purge()
     # ---------------- (b) equality iff equal keys
     def key(r):
-        return (r.choice(['p', 'div', 'p.a', ':--c', 'a|b', 'p ']), r.choice([None, {'a': 'u1'}, {'a': 'u2'}, {'a': 'u1', 'b': 'u2'}, {'b': 'u2', 'a': 'u1'}]),
-                r.choice([None, {':--c': 'p'}, {':--c': 'div'}, {':--c': 'p', ':--d': 'i'}, {':--d': 'i', ':--c': 'p'}]), r.choice([0, 1, False, True]))
+        return (r.choice(['p', 'div', 'p.a', ':--c', 'a|b', 'p ', S('p'), S('a|b')]),
+                r.choice([None, {'a': 'u1'}, {'a': 'u2'}, {'a': 'u1', 'b': 'u2'}, {'b': 'u2', 'a': 'u1'},
+                          {S('a'): 'u1'}, {'a': S('u1')}, {S('b'): S('u2'), 'a': 'u1'}]),
+                r.choice([None, {':--c': 'p'}, {':--c': 'div'}, {':--c': 'p', ':--d': 'i'}, {':--d': 'i', ':--c': 'p'},
+                          {S(':--c'): 'p'}, {':--c': S('p')}, {':--d': S('i'), S(':--c'): 'p'}]), r.choice([0, 1, False, True]))
 
     def norm(k):
         return (k[0], None if k[1] is None else tuple(sorted(k[1].items())), None if k[2] is None else tuple(sorted(k[2].items())), int(k[3]))
-    import contextlib, io
-    for _ in range(600 if quick else 20000):
+    for _ in range(900 if quick else 30000):
         k1, k2 = key(rng), key(rng)
         evaluations += 1
         try:
@@ -165,7 +407,8 @@ def run(chk):
         if (a == b) != (norm(k1) == norm(k2)):
             bad.append({'what': 'compile(k1) == compile(k2) does not coincide with k1 == k2', 'k1': repr(k1), 'k2': repr(k2), 'eq': a == b})
         if a == b and hash(a) != hash(b):
-            bad.append({'what': 'equal compiled selectors with different hashes', 'k1': repr(k1), 'k2': repr(k2)})
+            bad.append({'what': 'equal compiled selectors with different hashes', 'k1': repr(k1), 'k2': repr(k2),
+                        'k1_types': describe_key(k1), 'k2_types': describe_key(k2)})
         if (a != b) == (a == b):
             bad.append({'what': '__ne__ is not the negation of __eq__', 'k1': repr(k1), 'k2': repr(k2)})
     # ---------------- (b2) equal argument maps (same items, another insertion order) have the same outcome, cached or fresh
@@ -221,6 +464,40 @@ def run(chk):
             bad.append({'what': 'compile(pattern, custom=m2) after compile(pattern, custom=m1) differs from a fresh parse of the same arguments',
                         'pattern': pat, 'custom_1': m1, 'custom_2': m2, 'fresh': repr(f2)[:160], 'after_history': repr(h2)[:160]})
     sv.purge()
+    # ---------------- (b4) the maps themselves: == maps (Mapping.__eq__: same items) have equal hashes, whatever the order of the items
+    # and whether keys / values are str or instances of a str subclass
+    map_pairs = 0
+    kpool, vpool = ['a', 'b', ':--c', '', 'svg'], ['u1', 'u2', 'p', '']
+    for _ in range(400 if quick else 10000):
+        items = list({rng.choice(kpool): rng.choice(vpool) for _ in range(rng.randint(0, 3))}.items())
+
+        def spelled():
+            it = [(S(k_) if rng.random() < 0.3 else k_, S(v_) if rng.random() < 0.3 else v_) for k_, v_ in items]
+            rng.shuffle(it)
+            if rng.random() < 0.25 and it:
+                it[0] = (it[0][0], rng.choice(vpool))           # mostly another map
+            return it
+        i1, i2 = spelled(), spelled()
+        for cls in (ct.ImmutableDict, ct.Namespaces, ct.CustomSelectors):
+            evaluations += 1
+            try:
+                m1 = cls(dict(i1)) if rng.random() < 0.5 else cls(i1)
+                m2 = cls(dict(i2)) if rng.random() < 0.5 else cls(tuple(i2))
+            except Exception as e:
+                bad.append({'what': f'{cls.__name__}(items) raised {e!r}', 'items_1': repr(i1), 'items_2': repr(i2)})
+                continue
+            map_pairs += 1
+            if (m1 == m2) != (dict(i1) == dict(i2)) or (m1 != m2) == (m1 == m2):
+                bad.append({'what': f'{cls.__name__}: == does not coincide with equality of the items', 'items_1': repr(i1), 'items_2': repr(i2)})
+            elif m1 == m2 and hash(m1) != hash(m2):
+                bad.append({'what': f'two {cls.__name__} objects that are == have different hashes',
+                            'items_1': [[type(x).__name__, str(x), type(y).__name__, str(y)] for x, y in i1],
+                            'items_2': [[type(x).__name__, str(x), type(y).__name__, str(y)] for x, y in i2],
+                            'sequence': f'class S(str): pass;  m1 = soupsieve.css_types.{cls.__name__}(items_1); m2 = ...(items_2); m1 == m2 and hash(m1) != hash(m2)'})
+    # ---------------- (e) pickles travel between interpreters started with different PYTHONHASHSEED values
+    xbad, xcounts = cross_process(chk, rng, pats, quick)
+    bad.extend(xbad)
+    evaluations += xcounts['cross_process_unpickles']
     # ---------------- (d) pass-through
     c = sv.compile('p')
     if sv.compile(c) is not c:
@@ -281,7 +558,7 @@ def run(chk):
     chk.samples = [{'classes_exercised': sorted(classes_seen)}, {'history_ops': py_infos[0][1][:20] if py_infos else []}]
     chk.coverage.update({'patterns_for_object_protocol': len(pats), 'classes_exercised': sorted(classes_seen), 'operations': evaluations,
                          'violations': len(bad) + len(hist_bad), 'cache_histories': len(lines), 'histories_with_evictions': evictions,
-                         'cache_model_mismatches': len(corr_bad), 'cache_bound': N})
+                         'cache_model_mismatches': len(corr_bad), 'cache_bound': N, 'map_pairs_eq_hash': map_pairs, **xcounts})
     for i, b in enumerate((bad + hist_bad)[:6]):
         chk.violation(f'v{i}', b, concrete=True)
     for i, b in enumerate(corr_bad[:3]):
@@ -296,4 +573,10 @@ def run(chk):
 def replay(chk, path):
     data = json.load(open(path))
     print(json.dumps(data.get('what')))
+    if data.get('xproc') and data.get('key'):
+        # re-run the cross-process round trip for this one key
+        bad, _ = cross_process(chk, random.Random(data.get('seed', 0)), [], True, only_keys=[undescribe_key(data['key'])])
+        for b in bad:
+            print(json.dumps(b['what']))
+        return 1 if bad else 0
     return 0
